@@ -1,5 +1,6 @@
 import ERP.Model.Entry
 import ERP.Lemmas.Monad
+import ERP.Lemmas.GenTies
 /-! # C20 — Offline stream filtering equals live filtering and is isolated
 
 In the model the stream processor owns a *value* of the filter state (the deep copy), so isolation
